@@ -83,10 +83,21 @@ func runOne(t *testing.T, def *CheckDef, tier string, seed int64, tape *Tape, ke
 		fmt.Println("KEEP", dir)
 	}
 	r := newRun(def.ID, tier, seed, tape, dir)
+	// The collector is off while a bubble runs: a GC cycle makes the running
+	// goroutine yield at its next function call, which reorders goroutines
+	// that are runnable at the same instant and would break replay.
+	runtime.GC()
+	old := debug.SetGCPercent(-1)
+	defer debug.SetGCPercent(old)
 	func() {
 		defer func() {
 			if rec := recover(); rec != nil {
 				res.PanicMsg = fmt.Sprintf("bubble: %v", rec)
+				if os.Getenv("SIM_DEBUG") != "" {
+					buf := make([]byte, 1<<20)
+					n := runtime.Stack(buf, true)
+					fmt.Fprintf(os.Stderr, "BUBBLE PANIC %v\n%s\n", rec, buf[:n])
+				}
 			}
 		}()
 		synctest.Test(t, func(t *testing.T) {
@@ -164,19 +175,33 @@ func (r *Run) teardown() {
 			}
 		}
 	}()
-	// Release parked goroutines until everything has drained.
-	for i := 0; ; i++ {
-		synctest.Wait()
-		select {
-		case <-done:
-			if r.Sched != nil {
-				for _, g := range r.Sched.Parked() {
-					r.Sched.release(g)
-				}
-				synctest.Wait()
+	// Release parked goroutines until everything has drained. Simulated time
+	// stops when the bubble's main goroutine returns, so every sleeper must be
+	// woken and must exit before that.
+	live := func() int {
+		if r.Sched == nil {
+			return 0
+		}
+		r.Sched.mu.Lock()
+		defer r.Sched.mu.Unlock()
+		n := 0
+		for _, g := range r.Sched.byID {
+			if !strings.HasPrefix(g.Name, "~") {
+				n++
 			}
-			return
-		default:
+		}
+		return n
+	}
+	closed := false
+	quiet := 0
+	for i := 0; i < 400000; i++ {
+		synctest.Wait()
+		if !closed {
+			select {
+			case <-done:
+				closed = true
+			default:
+			}
 		}
 		released := false
 		if r.Sched != nil {
@@ -185,14 +210,19 @@ func (r *Run) teardown() {
 				released = true
 			}
 		}
-		if !released {
-			time.Sleep(50 * time.Millisecond)
+		if released {
+			quiet = 0
+			continue
 		}
-		if i > 200000 {
-			r.Inconclusive("teardown did not drain")
-			return
+		if closed && live() == 0 {
+			quiet++
+			if quiet > 40 {
+				return // 4 s of simulated silence after the last harness goroutine ended
+			}
 		}
+		time.Sleep(100 * time.Millisecond)
 	}
+	r.Inconclusive("teardown did not drain")
 }
 
 // OnCleanup registers a function to run at teardown (inside the bubble).
@@ -286,6 +316,7 @@ type WorkerSummary struct {
 	Seeds        []int64          `json:"seeds"`
 	StoppedEarly bool             `json:"stopped_early"`
 	FatalAbort   bool             `json:"fatal_abort"`
+	PerRun       []string         `json:"per_run,omitempty"`
 }
 
 func envInt(name string, def int64) int64 {
@@ -329,6 +360,9 @@ func SimMain(t *testing.T) {
 		log.SetOutput(io.Discard)
 	}
 	litefs.TraceLog.SetOutput(io.Discard)
+	if p := os.Getenv("SIM_EVLOG"); p != "" {
+		evlog, _ = os.Create(p)
+	}
 	go watchdog()
 	if os.Getenv("SIM_KEEP") == "" {
 		defer os.RemoveAll(scratch())
@@ -459,6 +493,9 @@ func SimMain(t *testing.T) {
 		res := runOne(t, def, tier, seed, NewTape(seed), false)
 		sum.Runs++
 		sum.Seeds = append(sum.Seeds, seed)
+		if os.Getenv("SIM_PERRUN") != "" {
+			sum.PerRun = append(sum.PerRun, fmt.Sprintf("%d steps=%d tape=%d hash=%x sim=%d viol=%v", seed, res.Steps, res.TapeLen, res.SeqHash, res.SimMs, res.Viol != nil))
+		}
 		sum.Steps += int64(res.Steps)
 		sum.SimMs += res.SimMs
 		for k, v := range res.Stats {
